@@ -412,6 +412,15 @@ def fam_faults(rng, thorough=False):
         out.append({"name": "faults/tcp_client_%s" % "_".join(seq), "conf": conf(reconnect_ms=100),
                     "endpoints": [{"kind": "tcp_client", "lmode": seq[0] if seq[0] in ("refuse", "accept_close") else "accept"}],
                     "steps": steps})
+    # a long outage: connection attempts keep failing for several times the dial timeout, then the server comes back
+    for rd in ([300] if not thorough else [200, 300, 500]):
+        out.append({"name": "faults/tcp_client_long_outage_%d" % rd, "conf": conf(reconnect_ms=100, read_ms=rd),
+                    "endpoints": [{"kind": "tcp_client", "lmode": "refuse"}],
+                    "steps": [{"op": "sleep", "ms": 3 * rd}, {"op": "listener_mode", "ep": 0, "mode": "accept"},
+                              {"op": "wait_open", "ep": 0, "n": 1}, {"op": "sleep", "ms": 30},
+                              {"op": "read_err", "ep": 0, "peer": -1}, {"op": "wait_close", "ep": 0, "n": 1},
+                              {"op": "listener_mode", "ep": 0, "mode": "refuse"}, {"op": "sleep", "ms": 3 * rd},
+                              {"op": "listener_mode", "ep": 0, "mode": "accept"}, {"op": "wait_open", "ep": 0, "n": 2}]})
     # serial: the opener fails n times, then works; then the device fails and reopens
     for fails in ([0, 2] if not thorough else [0, 1, 2, 4]):
         t = Tags(74000)
@@ -495,4 +504,40 @@ def fam_links(rng, thorough=False):
                             "conf": conf(version=ver, sys=sys, outkey=KEY if keyed else [], comp=rng.choice([0, 1, 7]),
                                          expect_init="fail" if bad else ""),
                             "endpoints": customs(1), "steps": [] if bad else opens(1)})
+    return out
+
+
+# --------------------------------------------------------------------------- C15
+def fam_race(rng, n):
+    """Concurrency-heavy scenarios for the race detector: heartbeats from new senders on several channels at once with
+    stream requests on; channels closing and re-opening while other goroutines write to a stable channel."""
+    out = []
+    for i in range(n):
+        t = Tags(300000 + 2000 * i)
+        k = 4
+        steps = opens(k)
+        for j in range(12):
+            items = []
+            for r in range(8):
+                for ep in range(k):
+                    items.append({"ep": ep, "item": {"kind": "hb", "tag": t.next(), "sys": 1 + (j * 8 + r + ep) % 60,
+                                                     "comp": 1 + (r + j) % 3, "autopilot": 3}})
+            steps.append({"op": "burst", "items": items})
+            if j % 3 == 0:
+                steps.append(write(1 + j % 3, rng.choice(KINDS), t.next(), ep=rng.randrange(k)))
+        steps += [{"op": "wait_writes"}, {"op": "quiesce", "ms": 1500}]
+        out.append({"name": "race/stream_requests/%d" % i, "conf": conf(sr_enable=True, hb_disable=False, hb_period_ms=3),
+                    "endpoints": customs(k), "steps": steps})
+        t = Tags(301000 + 2000 * i)
+        steps = opens(3)
+        for j in range(30):
+            for w in range(4):
+                steps.append(write(1 + w, rng.choice(["MsgTo", "FrameTo", "MsgExcept", "MsgAll"]), t.next(), ep=0))
+            steps.append({"op": "read_err", "ep": 1 + j % 2})
+            if j % 3 == 0:
+                steps.append(feed(0, "valid", t.next()))
+            if j % 7 == 6:
+                steps.append({"op": "sleep", "ms": 2})
+        steps += [{"op": "wait_writes"}, {"op": "quiesce", "ms": 1500}]
+        out.append({"name": "race/channel_churn/%d" % i, "conf": conf(hb_disable=False, hb_period_ms=3), "endpoints": customs(3), "steps": steps})
     return out
